@@ -13,7 +13,20 @@
  *                             the harness, nothing touches the file system): <e> is <value> (a regular file),
  *                             !<value> (a directory), ?<value> (stat fails), #<count>x<len> (count regular files with
  *                             generated names of len characters); - for an empty directory.  Other directories do not exist.
- * ops: e:<text> (expand), p:<k>:<v> (put_var), d:<k> (put_var k NULL), g:<k> (get_var).
+ *     @f<name>=<value>|!      a function the application registers with spifconf_register_builtin under <name> (hex, - = the
+ *                             empty name); called with the text t it answers a fresh string <value>t, called with NULL
+ *                             <value>^; with ! it answers NULL.  Functions are registered in the order of the entries.
+ *     @F=<count>              <count> such functions named f<k> answering "<k:"t (k = position among all functions, from 0)
+ *     @n=<count>              only the first <count> functions are registered when the run starts (default: all)
+ *     @c=<count>              <count> contexts are registered (spifconf_register_context) before the functions of every cycle
+ * ops: e:<text> (expand), p:<k>:<v> (put_var), d:<k> (put_var k NULL), g:<k> (get_var),
+ *      r:<n> (register the functions up to the n-th; prints R<id the last registration returned>),
+ *      c:<n> (a new cycle: spifconf_free_subsystem, the heap dirtied, spifconf_init_subsystem, the first n functions
+ *      registered; the store is empty again; prints C).
+ * Every run starts with such a cycle: the heap is dirtied (blocks of many sizes - among them every size the function
+ * table passes through - allocated, filled with the paint byte and freed), then spifconf_init_subsystem runs and the
+ * functions are registered with every malloc'ed and every realloc'ed byte painted, so that no part of a table is zero
+ * by luck; the run ends with spifconf_free_subsystem.
  * The whole history is run THREE times from an empty store:
  *   run 1: stack, malloc'ed blocks and the slack of every input object painted 0xA5;
  *   run 2: the same with 0x5A;      the two transcripts must be identical (else PAINT-DEPENDENT);
@@ -129,9 +142,22 @@ void *__wrap_malloc(size_t n)
     if (p && lv_heap_paint_on) memset(p, lv_paint, n);
     return p;
 }
+size_t malloc_usable_size(void *p);
 void *__wrap_realloc(void *q, size_t n)
 {
-    void *p = __real_realloc(q, n);
+    void *p;
+    if (lv_heap_paint_on && n) {
+        /* a block that grows gets fresh memory: new block, painted, the old content copied, the old block released -
+         * whatever the allocator would have done in place */
+        size_t old = q ? malloc_usable_size(q) : 0;
+        p = __real_malloc(n);
+        if (!p) return NULL;
+        memset(p, lv_paint, n);
+        if (q) { memcpy(p, q, old < n ? old : n); __real_free(q); }
+        else lv_live++;
+        return p;
+    }
+    p = __real_realloc(q, n);
     if (!q && p) lv_live++;
     return p;
 }
@@ -145,6 +171,78 @@ void __wrap_free(void *p)
 {
     if (p) lv_live--;
     __real_free(p);
+}
+
+/* ---- functions the application registers ---- */
+#define LV_NFUN 200
+static char *lv_fn_name[LV_NFUN], *lv_fn_ret[LV_NFUN];      /* lv_fn_ret NULL: the function answers NULL */
+static int lv_nfun, lv_nfun_start = -1, lv_nctx, lv_nreg, lv_inited;
+static spif_charptr_t lv_fn_answer(int k, spif_charptr_t param)
+{
+    size_t a, b;
+    char *r;
+    if (k >= lv_nfun || !lv_fn_ret[k]) return NULL;
+    a = strlen(lv_fn_ret[k]);
+    b = param ? strlen((char *) param) : 1;
+    r = (char *) malloc(a + b + 1);
+    memcpy(r, lv_fn_ret[k], a);
+    if (param) memcpy(r + a, param, b); else r[a] = '^';
+    r[a + b] = 0;
+    return (spif_charptr_t) r;
+}
+#define FD(a, b, c) static spif_charptr_t lv_fn_##a##b##c(spif_charptr_t p) { return lv_fn_answer(a * 100 + b * 10 + c, p); }
+#define FT(a, b, c) lv_fn_##a##b##c,
+#define F10(M, a, b) M(a, b, 0) M(a, b, 1) M(a, b, 2) M(a, b, 3) M(a, b, 4) M(a, b, 5) M(a, b, 6) M(a, b, 7) M(a, b, 8) M(a, b, 9)
+#define F100(M, a) F10(M, a, 0) F10(M, a, 1) F10(M, a, 2) F10(M, a, 3) F10(M, a, 4) F10(M, a, 5) F10(M, a, 6) F10(M, a, 7) F10(M, a, 8) F10(M, a, 9)
+F100(FD, 0) F100(FD, 1)
+static spifconf_func_ptr_t lv_fns[LV_NFUN] = { F100(FT, 0) F100(FT, 1) };
+static void *lv_ctx_handler(spif_charptr_t b, void *st) { (void) b; return st; }
+
+/* previously used and freed blocks of every size class the tables and their neighbours on the heap pass through */
+static void lv_dirty_heap(void)
+{
+    static const size_t sz[] = { 8, 16, 24, 32, 48, 64, 80, 96, 112, 128, 144, 160, 176, 192, 208, 224, 240, 256, 288, 304, 320, 336,
+                                 352, 400, 480, 512, 624, 640, 656, 800, 1024, 1264, 1280, 1296, 2048, 2544, 2560, 2576, 4096, 5120,
+                                 8192, 10240, 20480 };
+    void *blk[4 * sizeof(sz) / sizeof(sz[0])];
+    size_t i, n = 0;
+    for (i = 0; i < sizeof(sz) / sizeof(sz[0]); i++) {
+        int r;
+        for (r = 0; r < 4; r++) {
+            void *p = __real_malloc(sz[i]);
+            if (p) { memset(p, lv_paint, sz[i]); blk[n++] = p; }
+        }
+    }
+    /* released in an order that leaves holes next to blocks still in use */
+    for (i = 0; i < n; i += 2) __real_free(blk[i]);
+    for (i = 1; i < n; i += 2) __real_free(blk[i]);
+}
+/* r:<n>: register the functions up to the n-th; the id the last registration returned, -1 if there was none */
+static int lv_register_upto(int n)
+{
+    int id = -1;
+    if (n > lv_nfun) n = lv_nfun;
+    lv_heap_paint_on = 1;
+    for (; lv_nreg < n; lv_nreg++) id = (int) spifconf_register_builtin(lv_fn_name[lv_nreg], lv_fns[lv_nreg]);
+    lv_heap_paint_on = 0;
+    return id;
+}
+static void lv_cycle(int nreg)
+{
+    int k;
+    if (lv_inited) spifconf_free_subsystem();
+    lv_dirty_heap();
+    lv_heap_paint_on = 1;
+    spifconf_init_subsystem();
+    for (k = 0; k < lv_nctx; k++) {
+        char nm[32];
+        snprintf(nm, sizeof(nm), "ctx%d", k);
+        spifconf_register_context((spif_charptr_t) nm, lv_ctx_handler);
+    }
+    lv_heap_paint_on = 0;
+    lv_inited = 1;
+    lv_nreg = 0;
+    lv_register_upto(nreg);
 }
 
 /* fill the stack region the next call will use (one CONFIG_BUFF frame per nesting level of
@@ -278,18 +376,23 @@ static void lv_clear_world(void)
         free(lv_dirs[k].name);
     }
     lv_ndirs = 0;
+    for (k = 0; k < lv_nfun; k++) { free(lv_fn_name[k]); free(lv_fn_ret[k]); lv_fn_name[k] = lv_fn_ret[k] = NULL; }
+    lv_nfun = 0;
+    lv_nfun_start = -1;
+    lv_nctx = 0;
     free(lv_exec_out);
     lv_exec_out = NULL;
     lv_exec_out_len = 0;
 }
 
-#define LV_MAXOPS 64
+#define LV_MAXOPS 512
 static size_t lv_outlen[LV_MAXOPS];     /* result length of each expansion in run 1; (size_t) -1 = NULL */
 
 /* mode 0: paint runs (record result lengths when rec), mode 1: exact blocks where the result fits */
 static void lv_run(int nops, char **ops, int mode, int rec, lv_out_t *o)
 {
     int k;
+    lv_cycle(lv_nfun_start < 0 ? lv_nfun : lv_nfun_start);
     lv_reset_store();
     lv_spawned = 0;
     for (k = 0; k < nops; k++) {
@@ -338,6 +441,13 @@ static void lv_run(int nops, char **ops, int mode, int rec, lv_out_t *o)
             spif_charptr_t v = spifconf_get_var((spif_charptr_t) kname);
             free(kname);
             if (!v) lv_adds(o, "U"); else { lv_adds(o, "V "); lv_addhex(o, (unsigned char *) v, strlen((char *) v)); }
+        } else if (op[0] == 'r') {
+            char lb[32];
+            snprintf(lb, sizeof(lb), "R%d", lv_register_upto(atoi(op + 2)));
+            lv_adds(o, lb);
+        } else if (op[0] == 'c') {
+            lv_cycle(atoi(op + 2));
+            lv_adds(o, "C");
         } else {
             lv_adds(o, "HARNESS-ERROR:bad-op");
             return;
@@ -357,14 +467,12 @@ static void lv_run(int nops, char **ops, int mode, int rec, lv_out_t *o)
     }
 }
 
-static int lv_inited;
 static void run_case(int n, char **t)
 {
     lv_out_t o1 = { 0, 0, 0 }, o2 = { 0, 0, 0 }, o3 = { 0, 0, 0 };
     char *pn, *pv;
     int i;
     if (n < 4 || strcmp(t[0], "x") || n - 4 > LV_MAXOPS) { printf("HARNESS-ERROR:bad-case"); return; }
-    if (!lv_inited) { spifconf_init_subsystem(); lv_inited = 1; }
     pn = lv_spec(t[1], NULL); pv = lv_spec(t[2], NULL);
     libast_program_name = (spif_charptr_t) pn;
     libast_program_version = (spif_charptr_t) pv;
@@ -382,6 +490,26 @@ static void run_case(int n, char **t)
                 lv_exec_out = (unsigned char *) lv_spec(eq + 1, &lv_exec_out_len);
             } else if (p[0] == '@' && p[1] == 'd') {
                 lv_add_dir(p + 2, eq + 1);
+            } else if (p[0] == '@' && p[1] == 'f') {
+                if (lv_nfun < LV_NFUN) {
+                    lv_fn_name[lv_nfun] = lv_spec(p + 2, NULL);
+                    lv_fn_ret[lv_nfun] = strcmp(eq + 1, "!") ? lv_spec(eq + 1, NULL) : NULL;
+                    lv_nfun++;
+                }
+            } else if (p[0] == '@' && p[1] == 'F') {
+                int cnt = atoi(eq + 1);
+                while (cnt-- > 0 && lv_nfun < LV_NFUN) {
+                    char nm[32];
+                    snprintf(nm, sizeof(nm), "f%d", lv_nfun);
+                    lv_fn_name[lv_nfun] = strdup(nm);
+                    snprintf(nm, sizeof(nm), "<%d:", lv_nfun);
+                    lv_fn_ret[lv_nfun] = strdup(nm);
+                    lv_nfun++;
+                }
+            } else if (p[0] == '@' && p[1] == 'n') {
+                lv_nfun_start = atoi(eq + 1);
+            } else if (p[0] == '@' && p[1] == 'c') {
+                lv_nctx = atoi(eq + 1);
             } else {
                 k = lv_spec(p, NULL); v = lv_spec(eq + 1, NULL);
                 setenv(k, v, 1);
@@ -402,7 +530,7 @@ static void run_case(int n, char **t)
         if (strcmp(o1.s, o3.s)) printf("BLOCK-DEPENDENT object: %s  exact: %s", o1.s, o3.s);
         else fputs(o1.s, stdout);
     }
-    lv_reset_store();
+    if (lv_inited) { spifconf_free_subsystem(); lv_inited = 0; }
     libast_program_name = (spif_charptr_t) PACKAGE;
     libast_program_version = (spif_charptr_t) VERSION;
     free(pn); free(pv);
